@@ -5,13 +5,13 @@
 \* character classes that matter to the encodings (unreserved, space, & = + % ; / ? #, latin-1, non-latin-1, empty),
 \* with up to two fields away from the default at a time (all pairs of fields x all pairs of classes).
 EXTENDS Naturals, Sequences, FiniteSets, TLC
-CONSTANTS Classes, Methods, BodyKinds
+CONSTANTS Classes, Methods, BodyKinds, MaxAway     \* MaxAway: how many fields may differ from the default at once
 VARIABLES req, got
 vars == <<req, got>>
 Default == "plain"
 Fields == {"seg", "qkey", "qval", "hval"}
 Reqs == {r \in [method : Methods, seg : Classes, qkey : Classes, qval : Classes, hval : Classes, body : BodyKinds] :
-            Cardinality({f \in Fields : r[f] # Default}) <= 2}
+            Cardinality({f \in Fields : r[f] # Default}) <= MaxAway}
 \* cases the property does not decide: an empty path segment or key collapses in any URL syntax; "?" and "#" inside a
 \* path delimit query and fragment by design; header values are trimmed of blanks by HTTP itself
 DontCare(r) == r.seg \in {"empty", "question", "hash"} \/ r.qkey = "empty" \/ r.hval \in {"space", "empty"}
